@@ -2,7 +2,10 @@ pub mod dnsconv;
 pub mod engine;
 pub mod ethip;
 pub mod hist;
+pub mod mutate;
 pub mod props_codec;
+pub mod props_crash;
+pub mod props_dnsfunc;
 pub mod rfc1035;
 pub mod props_dhcp;
 pub mod rfc2131;
@@ -57,6 +60,19 @@ pub fn run_check(id: &str, tier: Tier) -> i32 {
             ctx.rule("truncate: generated messages x size limits placed at/around every record boundary or absolute 512..65535 through serialise_with_size; oracle: independent decoder accepts, len<=limit, fits => identical to full, else TC + proper record prefix; non-trivial = full encoding within 32 octets of the limit or above it");
             props_codec::run_c04_func(&ctx);
         }
+        "C05" => {
+            ctx.rule("bytes: (1) complete enumeration of the single-position family over harness-built seed packets of every protocol (each octet := 12 boundary values and +-1, each 16-bit position := 12 boundary values, every truncation point), (2) committed corpus, (3) generated multi-edit mutations (set/flip/truncate/insert/delete/duplicate) and random bytes 0..65535; each input goes through the decoder and then through what the handler does with the decoded value (option accessors, logging formatters, handle_pkt, reply serialisation, frame build); oracle: returns, no panic/overflow, < 30 s CPU; non-trivial = input accepted by the decoder (handler code ran) or a failure");
+            ctx.assume("frames shorter than 14 octets cannot be delivered to the LLDP service by the kernel; the LLDP target starts after the Ethernet header");
+            props_crash::run_c05_func(&ctx);
+        }
+        "C06" => {
+            ctx.rule("cache-model: generated query sequences (keys with near misses: label/type/DO/CD/case; replies with 0..12 records, TTLs {0,1,2,59,600,2^31,2^32-1,random} over three sections, cached error kinds) x clock moves (fixed steps and placements at +-2 s around the entry's smallest TTL in 250 ms steps) x sweeps, driven through the cache's own functions in handle_query order under tokio's paused clock; oracle: reference cache model; non-trivial = near-miss lookup, hit within 1 s of expiry, or hit on a reply with >=2 distinct TTLs in >=2 sections");
+            props_dnsfunc::run_c06_func(&ctx);
+        }
+        "C16" => {
+            ctx.rule("bucket: burst B and rate R inferred black-box, then generated arrival sequences (dt in {0,1,2,10,49,50,51,10^4} s, sizes 0..3.2B) applied check-then-deplete as the limiter does, on a harness clock; oracle: every window's granted volume <= B + R*span (+R per grant rounding), idle >= B/R => request <= B granted; non-trivial = grant after a denial or an idle gap");
+            props_dnsfunc::run_c16_func(&ctx);
+        }
         _ => {
             eprintln!("unknown property {}", id);
             return 2;
@@ -83,7 +99,9 @@ pub fn run_replay(path: &str) -> i32 {
     let id = v["property"].as_str().unwrap_or("");
     let sub = v["sub"].as_str().unwrap_or("");
     let case = &v["case"];
-    let res = props_dhcp::replay(id, sub, case).or_else(|| props_codec::replay(id, sub, case));
+    let res = props_dhcp::replay(id, sub, case).or_else(|| props_codec::replay(id, sub, case))
+        .or_else(|| props_dnsfunc::replay(id, sub, case))
+        .or_else(|| props_crash::replay(id, sub, case));
     match res {
         None => {
             eprintln!("no replayer for {} / {}", id, sub);
